@@ -113,6 +113,7 @@ func init() {
 			}
 		}
 		out = append(out, racingScenarios(thorough)...)
+		out = append(out, timerScenarios(thorough)...)
 		return out, nil
 	})
 }
@@ -246,6 +247,44 @@ func racing(hostKind string, kinds []string, scripts [][]int, mode string) func(
 			h.Fail("C09/engine/causal-order", "%s", r.Grammar[0])
 		}
 	}
+}
+
+// timer boundary events (the "timeout on an activity" pattern): the boundary event carries a
+// one-hour duration timer; the environment moves the clock or answers. The timer fires once.
+func timerScenarios(thorough bool) []*h.Scn {
+	var out []*h.Scn
+	for _, hostKind := range []string{"task", "sub"} {
+		for _, kind := range []string{"I", "N"} {
+			for _, pre := range []bool{false, true} {
+				g := build(hostKind, []string{kind}, pre)
+				// replace the signal definition by a timer
+				host := g.Find("host")
+				host.Boundary[0].Defs = []drv.EventDef{{Kind: "timer", Sub: "timeDuration", Ref: "PT1H"}}
+				defs := g.Parse()
+				alphabet := []drv.EventDef{{Kind: "timer", Sub: "timeDuration", Ref: "PT1H"}}
+				bounds := []int{0, 1}
+				for _, d := range bounds {
+					if d == 1 && pre && !thorough {
+						continue
+					}
+					el := &drv.EventLock{Sig: "C10/" + hostKind + "-timer", G: g, Defs: defs, Events: alphabet, MaxEvents: 1, Tags: kind, Open: drv.OpenOpts{Timer: true}}
+					el.CompletesShape = func(m *drv.Model) string {
+						if m.After["b1"] > 0 {
+							return "after-boundary-fired"
+						}
+						return "after-normal-completion"
+					}
+					sc := &h.Scn{Name: fmt.Sprintf("C10/%s-timer/[%s]/pre=%v/d%d", hostKind, kind, pre, d), Body: el.Body(), Opts: verifrt.Options{Bound: d, UseCache: true}}
+					sc.Weight = 2 * (1 + 500*d*d)
+					if d == 1 {
+						sc.Split = 4
+					}
+					out = append(out, sc)
+				}
+			}
+		}
+	}
+	return out
 }
 
 func racingScenarios(thorough bool) []*h.Scn {
